@@ -94,10 +94,11 @@ func runC05(c *Ctx) {
 			if v.Type().String() != "bool" {
 				return 0, false
 			}
-			if _, isPhi := v.(*ssa.Phi); !isPhi {
-				if _, isBin := v.(*ssa.BinOp); !isBin {
-					return 0, false
-				}
+			switch v.(type) {
+			case *ssa.Phi, *ssa.BinOp, *ssa.Call:
+				// a φ / expression over the attribute, or the result of a helper computing it
+			default:
+				return 0, false
 			}
 			if sl.Derives(v, func(x ssa.Value) bool {
 				return flow.IsFieldLoad(x, repoPath("ovmf"), "MaterialGuestPhysicalRegion", "TDVFAttributes")
